@@ -163,6 +163,7 @@ impl Params {
             min_root_reqs: 1,
             max_root_reqs: 2,
             max_root_constraints: 1,
+            tail_random: true,
             ..Params::conflict_heavy()
         }
     }
